@@ -32,7 +32,7 @@ def run(cx: Cx):
     sites = cx.effects.sites_of(RLOC)
     for s in sites:
         v = s.ev.data.get('value')
-        if s.kind == 'rebind' and s.fn.qualname == COLL + 'Collector.__init__' and isinstance(v, Fresh) and v.kind == 'list' and not v.items:
+        if s.kind == 'rebind' and s.owner_q == COLL + 'Collector.__init__' and isinstance(v, Fresh) and v.kind == 'list' and not v.items:
             cx.ok('R-DISC', 'records start as a fresh empty list', where=s.where, function=s.fn.qualname)
         elif s.kind in ('append', 'clear'):
             cx.ok('R-DISC', f"records.{s.kind}", where=s.where, function=s.fn.qualname)
